@@ -270,7 +270,7 @@ for K in (BitVector, Unsigned, Signed):
             if form == "int":
                 arg = PyInt("n", None, None, -2, 9)
             else:
-                arg = Built(["n"], lambda env: slice(env["n"], 0, None), lambda asg: f"slice({asg['n']},0)", lambda asg: slice(asg["n"], 0), lambda env: env["n"] >= 1)
+                arg = Built(["n"], lambda env: slice(env["n"], 0, None), lambda asg: f"slice({asg['n']},0)", lambda asg: slice(asg["n"], 0), lambda env: env["n"] >= 0)  # [0:0] included: the width-1 vector, identical to K[1]
             c = Case(f"{K.__name__}-{form}-{'hit' if hit else 'miss'}", [Const(K, f"cohdl.{K.__name__}"), arg], bv_spec(K, hit, form))
             c.native = False
             c.interp_flags = {"abstract_type_creation": True}
@@ -376,3 +376,21 @@ def replay_reparametrised(payload):
 
     rc, out = _run_design(_REPARAM_SCRIPT)
     return {"reproduced": rc == 0 and "POISONED" in out, "detail": "parametrising a parametrised primitive type before the first regular use of the second parameter: " + out[-200:]}
+
+
+_WIDTH1_SCRIPT = '''
+from cohdl import BitVector, Unsigned, Signed
+print("SAME" if all(K[0:0] is K[1] for K in (BitVector, Unsigned, Signed)) else "DIFFERENT", str(BitVector[0:0]), str(BitVector[1]))
+'''
+
+
+def replay_width1(payload):
+    from contracts.c06_extra import _run_design
+
+    rc, out = _run_design(_WIDTH1_SCRIPT)
+    return {"reproduced": rc == 0 and "DIFFERENT" in out, "detail": "K[0:0] and K[1] (equal parameters: width 1) must be the identical class: " + out[-80:]}
+
+
+for _c in C.CONTRACTS["cohdl._core._bit_vector:_BitVector.__getitem__"].cases:
+    if "-slice-" in _c.name:
+        _c.custom_replay = "contracts.c13_types.replay_width1"
